@@ -6,6 +6,7 @@
 package fakes
 
 import (
+	gosync "sync"
 	"context"
 	"errors"
 	"io"
@@ -52,8 +53,13 @@ func target(cc grpc.ClientConnInterface) string {
 	return ""
 }
 
+// callsMu only matters in free-running (race pass) use; under the cooperative scheduler it is never contended.
+var callsMu gosync.Mutex
+
 func pre(t, method string, ctx context.Context, req interface{}) (*Node, bool, interface{}, error) {
+	callsMu.Lock()
 	Calls[t+" "+method]++
+	callsMu.Unlock()
 	if Intercept != nil {
 		if h, r, err := Intercept(t, method, ctx, req); h {
 			return nil, true, r, err
